@@ -13,6 +13,7 @@ the step list extracted from reload.rs on every run — Gen/ReloadOrder.lean).
 -/
 import TracingModel.Core.Reload
 import TracingModel.Props.C07
+import TracingModel.Props.C04
 
 namespace C12
 open TM.Reload TM.Filtering TM.FilterExpr TM.Directive TM.FilteringLemmas
@@ -532,6 +533,30 @@ theorem racing_old_or_new (tm : List Tmpl) (ht : GoodT tm) (old new : List FExpr
     rcases hml with e | e
     · left; exact (above old gO (e ▸ hl)).symm
     · right; exact (above new gN (e ▸ hl)).symm
+
+/-! ### a reload racing with first-hit registrations on other threads
+
+`Handle::modify` is, per `modify_order`, "mutate under the value's lock, release it, rebuild".  In
+C04's transition system (all interleavings of any number of threads, with the lock scope of
+`callsite::register` extracted from the source) these are the steps `mutate` and `rebuildCache`.
+A callsite that another thread is registering for the first time while the reload runs either is
+on the callsite list when the rebuild walks it, or computes its interest after the mutate — because
+`register` holds the read lock from "compute" until after "push" (C04.lock_discipline). -/
+
+/-- the lock scope of `callsite::register` and the order inside the writer sections, as extracted now -/
+theorem lock_discipline : TM.Gen.RegistryLocks.registerHoldsAcrossPush = true ∧
+    TM.Gen.RegistryLocks.rebuildCacheOrder = ["write", "rebuild"] :=
+  ⟨C04.lock_discipline.1, C04.lock_discipline.2.2.2.1⟩
+
+/-- **C12.reload_racing_registration** — after EVERY interleaving in which every reload that mutated
+has also rebuilt (i.e. has returned), every cached interest — including those of callsites that were
+being registered for the first time during the reload — agrees with every live collector's NEW answers -/
+theorem reload_racing_registration (U : List TM.Callsite.Cs) (steps : List TM.RegRace.Step)
+    (hin : ∀ st ∈ steps, C04.StepIn U st) (hclean : (C04.runCode U steps).dirty = false) :
+    let s := C04.runCode U steps
+    ∀ cs c, s.alive c = true →
+      (s.cache cs = some .never → s.want c cs = .never) ∧ (s.cache cs = some .always → s.want c cs = .always) :=
+  (C04.never_stranded U steps hin hclean).1
 
 /-! ### non-vacuity: a concrete template, values and history meet every hypothesis -/
 
